@@ -73,3 +73,31 @@ CHECKS["C15"] = {
     "outside": ["the real ioctl path behind unsafe.Pointer (LinuxDevice.Ioctl is replaced by the scripted device after unix.Open)", "the real configfs quote provider"],
     "assumptions": ["unix.Open returns (fd, nil) or (-1, err)", "abi.QuoteToProto is a stub in H15d (it is C09/C10's subject)"],
 }
+
+CHECKS["C07"] = {
+    "groups": ["c07"],
+    "quick": {"match": "^H07", "budget": 600},
+    "thorough": {"match": "^[HT]07", "budget": 3000, "query_timeout_ms": 120000},
+    "what": "verify.verifyQeReport (applyMask, checkQeTcbStatus, readQeTcbStatus) on a QE report with symbolic MISCSELECT, ATTRIBUTES, MRSIGNER, "
+            "ISVPRODID, ISVSVN against a QE identity whose values and masks have symbolic content and symbolic length (miscselect/mask 0..5, "
+            "attributes/mask 15..17, mrsigner 31..33) and k ordered TCB levels with symbolic isvsvn and symbolic status string; asserted: "
+            "(err == nil) equals the statement written byte-wise",
+    "bounds": {"tcb_levels": "0..3 (thorough: 5)", "status": "arbitrary string (opaque atom; the 7 constants are particular values)"},
+    "outside": ["JSON decoding of the identity (HexBytes / TcbComponentStatus UnmarshalJSON run behind the encoding/json stub)"],
+    "assumptions": ["logger is a no-op; fmt.Errorf returns non-nil"],
+}
+
+CHECKS["C04"] = {
+    "groups": ["c04"],
+    "quick": {"match": "^H04", "budget": 600},
+    "thorough": {"match": "^[HT]04", "budget": 3000, "query_timeout_ms": 120000},
+    "what": "verify.verifyTdQuoteBody (applyMask, checkTcbInfoTcbStatus, readTcbInfoTcbStatus, getMatchingTcbLevel, isCPUSvnHigherOrEqual, "
+            "isTdxTcbSvnHigherOrEqual, getMatchingTdxModuleTcbLevel) and SupportedTcbLevelsFromCollateral on symbolic platform SVN vectors "
+            "(16 SGX components, PCE SVN, 16 TEE TCB SVN bytes), symbolic identity fields (FMSPC/PCE-ID strings, MRSIGNERSEAM, attributes and mask of "
+            "symbolic length 7..9 / 47..49), k ordered TCB levels (2x16 component SVNs, PCE SVN, status string all symbolic) and m TDX module "
+            "identities with l levels each (id string of symbolic length <= 8, isvsvn, status symbolic); asserted: (err == nil) equals a reference "
+            "implementation of the statement; the reporting API errors when no level matches",
+    "bounds": {"platform_levels": "k<=2 quick, k<=4 thorough", "module_identities": "m<=1 quick, m<=2 thorough", "module_levels": "l<=2 quick, l<=3 thorough"},
+    "outside": ["non-ASCII FMSPC strings (strings.EqualFold is modelled for ASCII)", "whether a case-variant PCE-ID matches is asserted exactly as the anchor states (exact match)"],
+    "assumptions": ["strings.EqualFold = ASCII case folding (native model)", "encoding/hex.EncodeToString native model (lower-case hex)", "logger no-op"],
+}
